@@ -97,6 +97,9 @@ func runSched(a *args) {
 			// hook ordinals: 1 get, 2 split, 3.. reads, last put. Gates: get, split, first read, middle read, put
 			mid := (sc.NParts[g]+1)/2 + 1
 			c.gates[g] = map[int]bool{1: true, 2: true, 3: true, 2 + mid: true, -1: true}
+			if a.N == 1 { // all reads in one step: gates at get, split and put only
+				c.gates[g] = map[int]bool{1: true, 2: true, -1: true}
+			}
 			c.resume[g] = make(chan struct{})
 			go func(g int) {
 				<-c.resume[g]
